@@ -106,6 +106,21 @@ def run(ctx):
                             break
                 if runs:
                     break
+        # the four codec functions are also evaluated as a whole, whatever their spelling
+        width = 8 if q.endswith("64") else 4
+        evaluated = False
+        if q.startswith("extract_uint") or q.startswith("emplace_uint"):
+            try:
+                badv, npat = (BO.eval_extractor if q.startswith("extract") else BO.eval_emplacer)(uu, fn, width)
+                evaluated = True
+                ctx.ob("R08.2", "%s:%s evaluated" % (un, q), not badv, site=A.where(fn), detail={"patterns": npat, "mismatches": badv[:4]},
+                       key="R08.2:%s:%s:evaluated" % (un, q),
+                       what="%s, evaluated on byte patterns, is not the big-endian %d-byte codec (e.g. sign extension of a byte >= 0x80, wrong order): %s" % (q, width, badv[:2]))
+            except FD.Unknown as e:
+                ctx.note("R08.2: %s:%s not evaluable as a whole (%s): decided on its byte sequence" % (un, q, e))
+        if not runs and evaluated:
+            ctx.note("R08.2: %s:%s is not written as a sequence of byte operations; decided by its evaluation" % (un, q))
+            continue
         ctx.require(runs, "R08.2: no byte sequence found in %s:%s" % (un, q))
         for r in runs:
             ok, d = BO.check_run(r)
